@@ -98,7 +98,11 @@ inductive Arg where
   | lit (s : List Char)
 deriving Repr
 
-def isSpace (c : Char) : Bool := c == ' ' || c == '\t' || c == '\n' || c == '\r' || c.toNat == 11 || c.toNat == 12
+/-- Python's `str.strip()` removes exactly the characters for which `str.isspace()` holds. -/
+def isSpace (c : Char) : Bool :=
+  let n := c.toNat
+  (9 ≤ n && n ≤ 13) || (28 ≤ n && n ≤ 32) || n == 0x85 || n == 0xa0 || n == 0x1680 || (0x2000 ≤ n && n ≤ 0x200a) ||
+  n == 0x2028 || n == 0x2029 || n == 0x202f || n == 0x205f || n == 0x3000
 
 def stripLine (l : List Char) : List Char := ((l.dropWhile isSpace).reverse.dropWhile isSpace).reverse
 
